@@ -1,0 +1,7 @@
+//go:build verif
+
+package search
+
+// VerifSetCandidateSourceHook registers fn to be told the name of the
+// candidate source the query planner picked.
+func VerifSetCandidateSourceHook(fn func(string)) { candSourceHook = fn }
